@@ -73,6 +73,7 @@ def check(env, rep, tier):
         if cfg == "default":
             rep.floor("C11.1", "panic-capable sites analysed from the handler entry points", total_sites, 60)
         check_reject_keeps_buffer(prog, rep)
+        check_not_handled(prog, rep)
         # ---- C11.2 bounded growth
         es = find_body(prog, "block_handler::extending_splice")
         if es is None:
@@ -152,6 +153,25 @@ def tr_read(s, ref):
     except Exception:
         return None
     return v.len if isinstance(v, VecV) else None
+
+
+def check_not_handled(prog, rep):
+    """C11.6: 'every failure is a handling error that renders as 4.xx / 5.xx': the code-less "not handled" error stands
+    for one thing only - there is no prepared response to write to (`response.ok_or_else(HandlingError::not_handled)`).
+    The handler never builds it directly."""
+    direct = []
+    for x in prog.bodies.values():
+        if x.get("promoted") or not x["path"].startswith("block_handler::") or "::tests" in x["id"]:
+            continue
+        for bb in x["blocks"]:
+            t = bb["term"]
+            if t["k"] == "call" and not bb.get("cleanup"):
+                pth = (t.get("resolved") or t.get("callee") or {}).get("path", "") or ""
+                if pth == "error::HandlingError::not_handled":
+                    direct.append((x["path"], bb["tspan"]["l"]))
+    rep.ob("C11.6", "not-handled-only-for-missing-response", not direct,
+           "the block handler builds the code-less 'not handled' error itself (%s): with a response prepared, such a failure cannot be rendered "
+           "as a 4.xx / 5.xx reply" % direct[:3])
 
 
 def check_reject_keeps_buffer(prog, rep):
